@@ -142,6 +142,13 @@ def gen(R, n):
         ws = [Fraction(R.rng.randint(1, 16), 16) * scale for _ in range(k)]
     else:
         ws = [Fraction(R.rng.randint(1, 5)) for _ in range(k)]
+        if n >= 3 and R.rng.random() < 0.5:
+            # 0/1 matrices with common row sum k >= 2 (biadjacency matrix of a k-regular bipartite graph): pairwise disjoint cyclic
+            # shifts of one permutation, all of weight 1 (seeded change C06-13; made a fixed share of this kind in the third session)
+            k = R.rng.randint(2, n - 1)
+            base = rand_perm(R.rng, n)
+            perms = [[base[(i + sh) % n] for i in range(n)] for sh in R.rng.sample(range(n), k)]
+            ws = [Fraction(1)] * k
     X = [[Fraction(0)] * n for _ in range(n)]
     for w, p in zip(ws, perms):
         for i in range(n):
